@@ -525,32 +525,151 @@ func parseSidx(box []byte) (*sidxBox, error) {
 	return s, nil
 }
 
-// diffOutput explains the first difference between an encoder output and the expected bytes in terms of
-// top-level boxes.
-func diffOutput(who string, got, want []byte) *harness.Fail {
-	if bytes.Equal(got, want) {
-		return nil
-	}
-	gb, _ := topWalk(got)
-	wb, _ := topWalk(want)
-	for i := 0; i < len(gb) && i < len(wb); i++ {
-		g, w := gb[i], wb[i]
-		if g.Type != w.Type {
-			return harness.Failf("C12|"+who+"|top-level box sequence differs: "+w.Type+" expected", "box %d: got %s, want %s\n got  %s\n want %s",
-				i, g.Type, w.Type, topTypes(gb), topTypes(wb))
+// ebox is a top-level box that an encoder output is expected to hold.
+type ebox struct {
+	typ   string
+	data  []byte // the bytes of the box in the input; nil: any content (the sidx written by UpdateSidx)
+	inOff uint64 // its offset in the input
+	seg   int    // expected segment (-1: none)
+	frag  int    // global fragment index (-1: none)
+}
+
+// each calls fn for every child box in b[from:to]; it reports whether the children tile the range.
+func each(b []byte, from, to int, fn func(typ string, start, end int)) bool {
+	for from < to {
+		if to-from < 8 {
+			return false
 		}
-		if g.Size != w.Size || !bytes.Equal(got[g.Offset:g.Offset+g.Size], want[w.Offset:w.Offset+w.Size]) {
-			return harness.Failf("C12|"+who+"|"+w.Type+" box not emitted byte-identically", "box %d (%s): got %d bytes %s, want %d bytes %s",
-				i, w.Type, g.Size, harness.HexTrunc(got[g.Offset:g.Offset+g.Size], 160), w.Size, harness.HexTrunc(want[w.Offset:w.Offset+w.Size], 160))
+		size := int(binary.BigEndian.Uint32(b[from:]))
+		if size < 8 || size > to-from {
+			return false
+		}
+		fn(string(b[from+4:from+8]), from, from+size)
+		from += size
+	}
+	return true
+}
+
+// withBaseMoved returns a copy of a moof box in which every tfhd.base_data_offset (an absolute file offset,
+// 14496-12 8.8.7) is moved by delta, and whether there was one.
+func withBaseMoved(moof []byte, delta int64) ([]byte, bool) {
+	out := append([]byte(nil), moof...)
+	found := false
+	each(out, 8, len(out), func(typ string, s, e int) {
+		if typ != "traf" {
+			return
+		}
+		each(out, s+8, e, func(typ string, s, e int) {
+			if typ == "tfhd" && e-s >= 24 && out[s+11]&1 != 0 {
+				v := binary.BigEndian.Uint64(out[s+16:])
+				binary.BigEndian.PutUint64(out[s+16:], uint64(int64(v)+delta))
+				found = true
+			}
+		})
+	})
+	return out, found
+}
+
+// withMoofOffsetsMapped returns a copy of an mfra box in which every tfra moof_offset that is a key of m is
+// replaced by its value.
+func withMoofOffsetsMapped(mfra []byte, m map[uint64]uint64) []byte {
+	out := append([]byte(nil), mfra...)
+	each(out, 8, len(out), func(typ string, s, e int) {
+		if typ != "tfra" || e-s < 24 {
+			return
+		}
+		version := out[s+8]
+		l := binary.BigEndian.Uint32(out[s+16:])
+		tail := int(l>>4&3) + int(l>>2&3) + int(l&3) + 3
+		n := int(binary.BigEndian.Uint32(out[s+20:]))
+		p := s + 24
+		for i := 0; i < n; i++ {
+			if version == 1 {
+				if p+16+tail > e {
+					return
+				}
+				if v, ok := m[binary.BigEndian.Uint64(out[p+8:])]; ok {
+					binary.BigEndian.PutUint64(out[p+8:], v)
+				}
+				p += 16 + tail
+			} else {
+				if p+8+tail > e {
+					return
+				}
+				if v, ok := m[uint64(binary.BigEndian.Uint32(out[p+4:]))]; ok {
+					binary.BigEndian.PutUint32(out[p+4:], uint32(v))
+				}
+				p += 8 + tail
+			}
+		}
+	})
+	return out
+}
+
+// compareOut compares an encoder output box by box with the expected boxes and returns where each of them
+// is in the output. "Byte-identical" is demanded of every box, with two exceptions that follow from what the
+// fields mean: when a moof has moved, its tfhd.base_data_offset fields may have moved with it, and the
+// tfra.moof_offset fields of an mfra may follow the moofs. (Whether the absolute offsets of the output are
+// right is judged separately on the samples and tfra entries of the output.)
+func compareOut(who string, got []byte, exp []ebox) ([]uint64, *harness.Fail) {
+	gb, tiled := topWalk(got)
+	expTypes := func() string {
+		var sb strings.Builder
+		for i, e := range exp {
+			if i > 0 {
+				sb.WriteByte(' ')
+			}
+			if e.data == nil {
+				fmt.Fprintf(&sb, "%s(new)", e.typ)
+			} else {
+				fmt.Fprintf(&sb, "%s@%d+%d", e.typ, e.inOff, len(e.data))
+			}
+		}
+		return sb.String()
+	}
+	for i := 0; i < len(gb) && i < len(exp); i++ {
+		if gb[i].Type != exp[i].typ {
+			return nil, harness.Failf("C12|"+who+"|top-level box sequence differs: "+exp[i].typ+" expected", "box %d: got %s, want %s\n got  %s\n want (offsets of the input) %s",
+				i, gb[i].Type, exp[i].typ, topTypes(gb), expTypes())
 		}
 	}
-	if len(gb) < len(wb) {
-		t := wb[len(gb)].Type
-		return harness.Failf("C12|"+who+"|top-level box sequence differs: "+t+" expected", "output ends after %d boxes (%d bytes), %s expected next\n got  %s\n want %s",
-			len(gb), len(got), t, topTypes(gb), topTypes(wb))
+	if len(gb) < len(exp) {
+		t := exp[len(gb)].typ
+		return nil, harness.Failf("C12|"+who+"|top-level box sequence differs: "+t+" expected", "output ends after %d boxes (%d bytes), %s expected next\n got  %s\n want (offsets of the input) %s",
+			len(gb), len(got), t, topTypes(gb), expTypes())
 	}
-	return harness.Failf("C12|"+who+"|top-level box sequence differs: end expected", "output has %d bytes, want %d\n got  %s\n want %s",
-		len(got), len(want), topTypes(gb), topTypes(wb))
+	if len(gb) > len(exp) || !tiled {
+		return nil, harness.Failf("C12|"+who+"|top-level box sequence differs: end expected", "output has %d bytes in %d boxes (tiled %v), want %d boxes\n got  %s\n want (offsets of the input) %s",
+			len(got), len(gb), tiled, len(exp), topTypes(gb), expTypes())
+	}
+	pos := make([]uint64, len(exp))
+	moofMap := map[uint64]uint64{}
+	for i := range exp {
+		pos[i] = gb[i].Offset
+		if exp[i].typ == "moof" {
+			moofMap[exp[i].inOff] = gb[i].Offset
+		}
+	}
+	for i, e := range exp {
+		if e.data == nil {
+			continue
+		}
+		g := got[gb[i].Offset : gb[i].Offset+gb[i].Size]
+		if bytes.Equal(g, e.data) {
+			continue
+		}
+		if e.typ == "moof" && gb[i].Offset != e.inOff {
+			if alt, ok := withBaseMoved(e.data, int64(gb[i].Offset)-int64(e.inOff)); ok && bytes.Equal(g, alt) {
+				continue
+			}
+		}
+		if e.typ == "mfra" && bytes.Equal(g, withMoofOffsetsMapped(e.data, moofMap)) {
+			continue
+		}
+		return nil, harness.Failf("C12|"+who+"|"+e.typ+" box not emitted byte-identically", "box %d (%s, at %d in the input, at %d in the output): got %d bytes %s, want %d bytes %s",
+			i, e.typ, e.inOff, gb[i].Offset, len(g), harness.HexTrunc(g, 200), len(e.data), harness.HexTrunc(e.data, 200))
+	}
+	return pos, nil
 }
 
 func evalSeg(c *segCase, st *stats) *harness.Fail {
@@ -803,26 +922,26 @@ func evalSeg(c *segCase, st *stats) *harness.Fail {
 	}
 
 	// ---- (2) default segment-mode encode == the kept boxes of the input, in order
-	var want []byte
+	var exp []ebox
 	for _, b := range boxes {
-		want = append(want, file[b.in.Offset:b.in.Offset+b.in.Size]...)
+		exp = append(exp, ebox{typ: b.in.Type, data: file[b.in.Offset : b.in.Offset+b.in.Size], inOff: b.in.Offset, seg: b.seg, frag: b.frag})
 	}
 	var out bytes.Buffer
 	if err := f.Encode(&out); err != nil {
 		return harness.Failf("C12|File.Encode|error on decoded file|rule="+rule, "%v; %s", err, describe())
 	}
-	if fail := diffOutput("File.Encode", out.Bytes(), want); fail != nil {
+	if _, fail := compareOut("File.Encode", out.Bytes(), exp); fail != nil {
 		return fail
 	}
 	sw := bits.NewFixedSliceWriter(int(f.Size()) + 64)
 	if err := f.EncodeSW(sw); err != nil {
 		return harness.Failf("C12|File.EncodeSW|error on decoded file|rule="+rule, "%v; %s", err, describe())
 	}
-	wantSW := want
+	expSW := exp
 	if truth.Mfra != nil && c.skip(st, "encodesw-drops-mfra") {
-		wantSW = want[:uint64(len(want))-truth.Mfra.Size]
+		expSW = exp[:len(exp)-1]
 	}
-	if fail := diffOutput("File.EncodeSW", sw.Bytes(), wantSW); fail != nil {
+	if _, fail := compareOut("File.EncodeSW", sw.Bytes(), expSW); fail != nil {
 		if !bytes.Equal(sw.Bytes(), out.Bytes()) && strings.Contains(fail.Key, "mfra expected") {
 			fail.Key = "C12|File.EncodeSW|mfra written by Encode is missing"
 		}
@@ -841,53 +960,50 @@ func evalSeg(c *segCase, st *stats) *harness.Fail {
 	o := out.Bytes()
 	if !existed && !c.AddIfNotExists {
 		// nothing to update, nothing to add: same output as before
-		return diffOutput("UpdateSidx(false,_)+Encode", o, want)
-	}
-	// expected: init boxes, one sidx, then the media boxes unchanged (a previous top-level sidx replaced)
-	var media []byte
-	segStartRel := make([]int64, len(part)) // first byte of each segment relative to the start of the media
-	for i := range segStartRel {
-		segStartRel[i] = -1
-	}
-	moofRel := make([]uint64, len(frags))
-	dropped := len(boxes) != len(truth.Boxes)
-	for _, b := range boxes {
-		if b.role == "init" || b.role == "topsidx" {
-			continue
-		}
-		if b.seg >= 0 && segStartRel[b.seg] < 0 {
-			segStartRel[b.seg] = int64(len(media))
-		}
-		if b.role == "moof" {
-			moofRel[b.frag] = uint64(len(media))
-		}
-		media = append(media, file[b.in.Offset:b.in.Offset+b.in.Size]...)
-	}
-	mediaLen := uint64(len(media)) // without mfra
-	if truth.Mfra != nil {
-		mediaLen -= truth.Mfra.Size
-	}
-	if uint64(len(o)) < truth.InitSize || !bytes.Equal(o[:truth.InitSize], file[:truth.InitSize]) {
-		return harness.Failf("C12|UpdateSidx+Encode|init boxes not emitted byte-identically", "output %d bytes", len(o))
-	}
-	ob, _ := topWalk(o)
-	var sbox *fragbuild.BoxInfo
-	for i := range ob {
-		if ob[i].Offset == truth.InitSize && ob[i].Type == "sidx" {
-			sbox = &ob[i]
-		}
-	}
-	if sbox == nil {
-		return harness.Failf("C12|UpdateSidx+Encode|no top-level sidx directly after the init boxes", "existed %v addIfNotExists %v; output boxes: %s", existed, c.AddIfNotExists, topTypes(ob))
-	}
-	sidxEnd := sbox.Offset + sbox.Size
-	// positions in the messages of this comparison are relative to the end of the sidx
-	if fail := diffOutput("UpdateSidx+Encode", o[sidxEnd:], media); fail != nil {
+		_, fail := compareOut("UpdateSidx(false,_)+Encode", o, exp)
 		return fail
 	}
-	sx, err := parseSidx(o[sbox.Offset:sidxEnd])
+	// expected: init boxes, one sidx, then the media boxes unchanged (a previous top-level sidx replaced)
+	var exp3 []ebox
+	sidxAt := -1
+	dropped := len(boxes) != len(truth.Boxes)
+	for i, b := range boxes {
+		if b.role == "topsidx" {
+			continue
+		}
+		if b.role != "init" && sidxAt < 0 {
+			sidxAt = len(exp3)
+			exp3 = append(exp3, ebox{typ: "sidx", seg: -1, frag: -1})
+		}
+		exp3 = append(exp3, exp[i])
+	}
+	pos, fail := compareOut("UpdateSidx+Encode", o, exp3)
+	if fail != nil {
+		if strings.HasSuffix(fail.Key, "sequence differs: sidx expected") {
+			fail.Key = "C12|UpdateSidx+Encode|no top-level sidx directly after the init boxes"
+		}
+		return fail
+	}
+	sidxEnd := pos[sidxAt+1]
+	segStart := make([]uint64, len(part)) // first byte of each segment in the output
+	moofPos := make([]uint64, len(frags))
+	mediaEnd := uint64(len(o))
+	seen := map[int]bool{}
+	for i, e := range exp3 {
+		if e.seg >= 0 && !seen[e.seg] {
+			seen[e.seg] = true
+			segStart[e.seg] = pos[i]
+		}
+		if e.typ == "moof" {
+			moofPos[e.frag] = pos[i]
+		}
+		if e.typ == "mfra" {
+			mediaEnd = pos[i]
+		}
+	}
+	sx, err := parseSidx(o[pos[sidxAt]:sidxEnd])
 	if err != nil {
-		return harness.Failf("C12|UpdateSidx+Encode|sidx box malformed", "%v: %x", err, o[sbox.Offset:sidxEnd])
+		return harness.Failf("C12|UpdateSidx+Encode|sidx box malformed", "%v: %x", err, o[pos[sidxAt]:sidxEnd])
 	}
 	// the references tile the media (14496-12 8.16.3.3: the first referenced item starts at the anchor = first
 	// byte after the sidx + first_offset; every further one directly after the preceding one)
@@ -898,12 +1014,12 @@ func evalSeg(c *segCase, st *stats) *harness.Fail {
 	ri := refTrack(c.Tracks)
 	rt := &c.Tracks[ri]
 	for i, r := range sx.Refs {
-		if at != sidxEnd+uint64(segStartRel[i]) {
+		if at != segStart[i] {
 			key := "C12|UpdateSidx|reference does not start at the first byte of its segment|rule=" + rule
 			if i == 0 {
 				key = "C12|UpdateSidx|first reference does not start at the first byte of the first segment"
 			}
-			return harness.Failf(key, "reference %d starts at %d, segment %d at %d (end of sidx %d, first_offset %d); references %+v; %s", i, at, i, sidxEnd+uint64(segStartRel[i]), sidxEnd, sx.FirstOffset, sx.Refs, describe())
+			return harness.Failf(key, "reference %d starts at %d, segment %d at %d (end of sidx %d, first_offset %d); references %+v; %s", i, at, i, segStart[i], sidxEnd, sx.FirstOffset, sx.Refs, describe())
 		}
 		at += uint64(r.Size)
 		var dur uint64
@@ -920,8 +1036,8 @@ func evalSeg(c *segCase, st *stats) *harness.Fail {
 			return harness.Failf("C12|UpdateSidx|subsegment_duration differs from the summed sample durations of the reference track", "reference %d: duration %d, track index %d (ID %d) has %d in segment %d; %s", i, r.Duration, ri, rt.ID, dur, i, describe())
 		}
 	}
-	if at != sidxEnd+mediaLen {
-		return harness.Failf("C12|UpdateSidx|references do not end at the end of the media|rule="+rule, "last reference ends at %d, media ends at %d (file %d); %+v; %s", at, sidxEnd+mediaLen, len(o), sx.Refs, describe())
+	if at != mediaEnd {
+		return harness.Failf("C12|UpdateSidx|references do not end at the end of the media|rule="+rule, "last reference ends at %d, media ends at %d (file %d); %+v; %s", at, mediaEnd, len(o), sx.Refs, describe())
 	}
 	if sx.Timescale != rt.Timescale {
 		return harness.Failf("C12|UpdateSidx|timescale differs from the reference track", "sidx %d, track ID %d has %d", sx.Timescale, rt.ID, rt.Timescale)
@@ -977,6 +1093,7 @@ func evalSeg(c *segCase, st *stats) *harness.Fail {
 				key = "C12|UpdateSidx+Encode|sample positions of the output are not valid (tfhd base_data_offset)"
 			}
 		}
+		ob, _ := topWalk(o)
 		return harness.Failf(key, "independent reader on the output: %v; input boxes %s; output boxes %s", rerr, topTypes(truth.Boxes), topTypes(ob))
 	}
 	for ti := range c.Tracks {
@@ -1014,9 +1131,9 @@ func evalSeg(c *segCase, st *stats) *harness.Fail {
 			for _, r := range s.Refs {
 				end += uint64(r.Size)
 			}
-			ok := end == sidxEnd+mediaLen
-			for _, rel := range segStartRel {
-				if end == sidxEnd+uint64(rel) {
+			ok := end == mediaEnd
+			for _, st := range segStart {
+				if end == st {
 					ok = true
 				}
 			}
@@ -1039,7 +1156,7 @@ func evalSeg(c *segCase, st *stats) *harness.Fail {
 			g := 0
 			for si := range c.Layout.Segments {
 				if fragHasTrack(&c.Layout.Segments[si].Frags[0], ti) {
-					wantOff = append(wantOff, sidxEnd+moofRel[g])
+					wantOff = append(wantOff, moofPos[g])
 				}
 				g += len(c.Layout.Segments[si].Frags)
 			}
@@ -1572,6 +1689,60 @@ func TestCaseJSON(t *testing.T) {
 		}
 		if !bytes.Equal(fragbuild.Concat(i1, s1, t1), fragbuild.Concat(i2, s2, t2)) {
 			rt.Fatalf("the unmarshalled case builds another file")
+		}
+	})
+}
+
+// TestAdjusters anchors withBaseMoved / withMoofOffsetsMapped on the independent writer: the same model is
+// written twice, the second time with a free box in front of the first moof; the moofs and the mfra of the
+// second file must be what the helpers make of those of the first one.
+func TestAdjusters(t *testing.T) {
+	rapid.Check(t, func(rt *rapid.T) {
+		c, _ := genCase(rt)
+		if c.SegSidx2 {
+			return
+		}
+		for si := range c.Layout.Segments {
+			for fi := range c.Layout.Segments[si].Frags {
+				c.Layout.Segments[si].Frags[fi].Opts.Base = 1
+			}
+		}
+		c.Layout.Mfra = true
+		c.Layout.TopSidx = false
+		i1, s1, t1, err := fragbuild.Build(c.Tracks, c.Layout)
+		if err != nil {
+			rt.Fatalf("Build: %v", err)
+		}
+		f1 := fragbuild.Concat(i1, s1, t1)
+		raw, _ := json.Marshal(c)
+		var d segCase
+		_ = json.Unmarshal(raw, &d)
+		fr := &d.Layout.Segments[0].Frags[0]
+		fr.PreBoxes = append([]fragbuild.ExtraBox{mkExtra("free", []byte{1, 2, 3}, 1)}, fr.PreBoxes...)
+		i2, s2, t2, err := fragbuild.Build(d.Tracks, d.Layout)
+		if err != nil {
+			rt.Fatalf("Build: %v", err)
+		}
+		f2 := fragbuild.Concat(i2, s2, t2)
+		m := map[uint64]uint64{}
+		n := 0
+		for si := range t1.Segments {
+			for fi := range t1.Segments[si].Frags {
+				a, b := t1.Segments[si].Frags[fi].Moof, t2.Segments[si].Frags[fi].Moof
+				m[a.Offset] = b.Offset
+				alt, found := withBaseMoved(f1[a.Offset:a.Offset+a.Size], int64(b.Offset)-int64(a.Offset))
+				if found != (len(c.Layout.Segments[si].Frags[fi].Runs) > 0) {
+					rt.Fatalf("withBaseMoved: found %v", found)
+				}
+				if !bytes.Equal(alt, f2[b.Offset:b.Offset+b.Size]) {
+					rt.Fatalf("withBaseMoved: moof differs")
+				}
+				n++
+			}
+		}
+		a, b := t1.Mfra, t2.Mfra
+		if !bytes.Equal(withMoofOffsetsMapped(f1[a.Offset:a.Offset+a.Size], m), f2[b.Offset:b.Offset+b.Size]) {
+			rt.Fatalf("withMoofOffsetsMapped: mfra differs")
 		}
 	})
 }
